@@ -158,18 +158,10 @@ def check_freshness(chk, ex, found):
             _wrappers.row(chk, "HeavyHitters.%s:does-not-touch-the-cache-bookkeeping" % meth, not sets, [x[2] for x in sets], found)
 
 
-def run(chk):
-    cache = {}
-
-    def found():
-        if "r" not in cache:
-            r = _oracle.hh_history(chk, 150)
-            cache["r"] = r
-        return cache["r"]
-
-    chk.default_found = found
-
-    _hh.kernels(chk, ["heavyhitters._max_count", "heavyhitters._add", "heavyhitters._merge"])
+def query_part(chk, found):
+    """query() = most_common(k) of a cache that maps exactly the stored identities with
+    _max_count >= threshold to that value and is regenerated whenever it is stale (also used by C03
+    and C04, whose statements speak about what query() returns)"""
     ex = glue.make_exec(chk, {("call", "heavyhitters._max_count"): maxcount_hook})
     try:
         check_gcs(chk, ex, found)
@@ -182,6 +174,22 @@ def run(chk):
         check_freshness(chk, ex2, found)
     except X.Unsupported as e:
         chk.undecided.append(("HeavyHitters.query", "unsupported construct in glue: %s" % e))
+    chk.assumptions.add("collections.Counter: finite map; most_common(k) = first k of the sort by count (ties in insertion order), a prefix of most_common(None)")
+
+
+def run(chk):
+    cache = {}
+
+    def found():
+        if "r" not in cache:
+            r = _oracle.hh_history(chk, 150)
+            cache["r"] = r
+        return cache["r"]
+
+    chk.default_found = found
+
+    _hh.kernels(chk, ["heavyhitters._max_count", "heavyhitters._add", "heavyhitters._merge"])
+    query_part(chk, found)
     # the 'count equals hh[key]' clause: same kernel, same arguments (key, len(key)) as __getitem__
     _glue.glue_part(chk, ["HeavyHitters"], {"getitem"}, found)
     n = 30 if chk.tier == "quick" else 800
